@@ -855,6 +855,30 @@ theorem summary_fallback_touches_source :
     (stInherit.objs 0).parsedSummary = none := by
   decide
 
+/-- object 1 is a variable documented by an `@ivar` field of class 0's docstring (split field: no docstring of
+its own, `parsed_docstring` preset, parent 0); its summary's `to_stan` raises -/
+def envSplit : Env :=
+  { envCx with parent := fun o => if o = 1 then some 0 else none,
+               parser := fun _ _ d => .returns (.plain d) [], plainToNode := fun _ => .returns,
+               toNode := fun _ => .returns,
+               walk := fun pd => match pd with | .user 5 _ => .summary 6 | _ => .summary 2,
+               toStan := fun k => if k = 6 then .raises (.other 3) else .returns (.opaque k) }
+
+def stSplit : St :=
+  ⟨fun o => if o = 0 then ⟨some ['x'], none, none, none⟩ else ⟨none, some (.user 5 []), none, none⟩, [], [], false, []⟩
+
+/-- witness for the open finding `summary:fallback-overwrites-source-summary`: the class's summary renders
+(`o2`); then the summary of the variable it documents by a field fails — and the CLASS's cached summary is
+overwritten with BROKEN, so the class now shows 'Broken description' too (`format_summary_fallback` writes to
+`ctx`, the docstring source, not to the object being rendered) -/
+theorem summary_fallback_overwrites_class_summary :
+    let s1 := (formatSummary envSplit stSplit 0).2
+    let s2 := (formatSummary envSplit s1 1).2
+    sumOf (formatSummary envSplit stSplit 0).1 = some (.opaque 2) ∧
+    sumOf (formatSummary envSplit s1 1).1 = some .broken ∧
+    sumOf (formatSummary envSplit s2 0).1 = some .broken := by
+  decide
+
 /-! ### a second call on the same object reports nothing new -/
 
 theorem getDocstring_congr (st st2 : St) (h : ∀ x, (st2.objs x).docstring = (st.objs x).docstring) :
